@@ -34,15 +34,38 @@ def small_patterns():
 _PATTERNS = small_patterns()
 
 
+def three_level_patterns():
+    """Three page_by levels over {1,2}: every 2-row pattern starting (1,1,1) and every contiguous 3-row one: the shapes in which
+    an outer level changes in mid-page while the inner ones repeat."""
+    import itertools
+
+    out = []
+    for n in (2, 3):
+        for rest in itertools.product(itertools.product("12", repeat=3), repeat=n - 1):
+            pat = [("1", "1", "1")] + list(rest)
+            if all(_contiguous([t[:k] for t in pat]) for k in (1, 2, 3)):
+                out.append(tuple(pat))
+    return out
+
+
+_PATTERNS3 = three_level_patterns()
+_DIRECTED3 = [p for p in _PATTERNS3 if len(p) == 2]
+
+
 def pattern_spec(pat, nrow):
-    lab = lambda lvl, v: "-----" if v == "-" else f"@{'AB'[lvl]}{v}"
-    rows = [[f"#{i}#", lab(0, a), lab(1, b), "x"] for i, (a, b) in enumerate(pat)]
-    return {"df": {"cols": ["id", "g0", "g1", "c0"], "rows": rows}, "body": {"page_by": ["g0", "g1"]}, "page": {"nrow": nrow},
+    lab = lambda lvl, v: "-----" if v == "-" else f"@{'ABC'[lvl]}{v}"
+    L = len(pat[0])
+    names = [f"g{l}" for l in range(L)]
+    rows = [[f"#{i}#"] + [lab(l, t[l]) for l in range(L)] + ["x"] for i, t in enumerate(pat)]
+    return {"df": {"cols": ["id"] + names + ["c0"], "rows": rows}, "body": {"page_by": names}, "page": {"nrow": nrow},
             "kind": "single", "strategy": "page_by", "header_mode": "default"}
 
 
 def generate(g, i):
     r = g.r
+    if i < len(_EXTRA3):
+        return pattern_spec(_EXTRA3[i], 14)
+    i -= len(_EXTRA3)
     if i < _N_PATTERNS[0]:
         return pattern_spec(_PATTERNS[_ORDER[i]], 12 if i % 3 else 4)
     strategy = r.choice(["page_by", "page_by", "page_by", "subline", "subline+page_by"])
@@ -55,6 +78,7 @@ def generate(g, i):
 
 _N_PATTERNS = [0]
 _ORDER = []
+_EXTRA3 = []
 
 
 def run(ctx):
@@ -64,4 +88,5 @@ def run(ctx):
     random.Random(ctx["seed"] + 55).shuffle(order)
     _ORDER[:] = order
     _N_PATTERNS[0] = len(_PATTERNS) if ctx["tier"] != "quick" else min(len(_PATTERNS), 90)
-    return common.run_docprop(ctx, "c05", generate, None, n_quick=180 + 90, n_thorough=3000 + len(_PATTERNS))
+    _EXTRA3[:] = _DIRECTED3 if ctx["tier"] == "quick" else _PATTERNS3
+    return common.run_docprop(ctx, "c05", generate, None, n_quick=180 + 90 + len(_DIRECTED3), n_thorough=3000 + len(_PATTERNS) + len(_PATTERNS3))
